@@ -67,10 +67,11 @@ fn wrap(dos: &[u8]) -> Guarded {
 	Guarded::new(&data, 0, true)
 }
 
-/// rich <k> : on the current image
+/// rich <k> : on the current image; `wf` / `wv` go through `Wrap::rich_structure` of the WRAPPER
+/// (`with_any!`: the body is expanded on the wrapper type itself, nothing is unwrapped first)
 pub fn rich(st: &State, rest: &str) -> String {
 	let k = rest.trim();
-	with_specific!(st, k, g, p => match p.rich_structure() { Ok(r) => dump(g, &r), Err(e) => format!("err {}", errname(e)) })
+	with_any!(st, k, g, p => match p.rich_structure() { Ok(r) => dump(g, &r), Err(e) => format!("err {}", errname(e)) })
 }
 
 /// rich_raw <hex of the DOS area>
